@@ -80,6 +80,8 @@ def dynamic_universe(c):
     """a in get_assets(t)  <=>  a has an entry date (not None) and t >= entry (inclusive) - whatever the universe was asked
        before (an instant earlier OR later than t: a universe object reused by a second session rewinds)"""
     w = c.key('w')
+    c.key('w2')
+    c.key('w3')                      # (concrete maps hold up to three assets, in any order of entry dates)
     dates = OptTimes(c, 'asset_dates')
     u = DynamicUniverse(dates.m)
     t0 = c.time('time_of_an_earlier_query')
